@@ -129,18 +129,20 @@ ResolveB(env, b) == IF Has(b, "ref") /\ EnvHas(env, b.ref.n) THEN EnvGet(env, b.
 (* ---------- numbers ---------- *)
 \* All comparisons on quarter units (U = 4: h stands for h/4; exact in float64 and in decimal text).  "big" landmark numerals are ordered by value: sg*2^e + o with
 \* |o| far smaller than the gap between consecutive landmarks, so the order is lexicographic.
+U == 4
 BigKey(x) == IF x.t = "big" THEN <<x.sg * x.e, x.o>> ELSE <<0, x.h>>  \* e >= 7 for landmarks, 0 for small
 NumLT(x, y) == LET a == BigKey(x) b == BigKey(y) IN a[1] < b[1] \/ (a[1] = b[1] /\ a[2] < b[2])
 NumEQ(x, y) == BigKey(x) = BigKey(y)
 NumLE(x, y) == NumLT(x, y) \/ NumEQ(x, y)
-AsNum(v)    == v     \* schema constants minimum/maximum/exclusive* are numeral records ("num" or "big")
-U == 4
 IsIntegral(x) == IF x.t = "big" THEN TRUE ELSE x.h % U = 0
 
 ExclKind(s, k) == IF Has(s, k) THEN s[k].k ELSE "none"
 
+\* deviation "IntBoundTruncated": on integer fields the generator truncates every boundary toward zero
+TruncQ(v) == IF v.t # "num" THEN v ELSE IF v.h >= 0 THEN JNum((v.h \div U) * U) ELSE JNum(-(((-v.h) \div U) * U))
 NumOK(s, x, D) ==
-  LET minOK  == ~Has(s, "minimum") \/ NumLE(AsNum(s.minimum), x)
+  LET AsNum(v) == IF "IntBoundTruncated" \in D /\ Main(s) = "integer" THEN TruncQ(v) ELSE v
+      minOK  == ~Has(s, "minimum") \/ NumLE(AsNum(s.minimum), x)
       maxOK  == ~Has(s, "maximum") \/ NumLE(x, AsNum(s.maximum))
       eminOK == CASE ExclKind(s, "exclusiveMinimum") = "n" -> NumLT(AsNum(s.exclusiveMinimum.h), x)
                   [] ExclKind(s, "exclusiveMinimum") = "b" ->
